@@ -185,6 +185,11 @@ ApplyTo(r, payload, emit, outcome, wire, o, nev, hasfol, fol, extra(_, _, _)) ==
       chk == IF ~ok THEN << <<"C04_Placed", FALSE>> >>
              ELSE StepChecks(E2, XD, SEEN, r, R, R2, o, FALSE)
                   \o << <<"C01_NoFailure", outcome = "ok">>,
+                        \* a unit that arrived with its structure may be turned into a collected range only once its
+                        \* dependencies are integrated (otherwise it was dropped instead of being kept)
+                        <<"C02_KeptUntilDeps",
+                            \A x \in (R2.gone \ R.gone) \cap ({us[i].id : i \in RealUnits(us)} \cup R.pend) :
+                               Deps(E2, x) \subseteq Have(R2)>>,
                         <<"C09_WireConsistent", WireConsistent(us) /\ WireConsistent(emit.ins) /\ wire = "">>,
                         <<"C07_EmitIffChanged", nev = (IF changed THEN <<1, 1>> ELSE <<0, 0>>)>> >>
                   \o (IF hasfol THEN FolChecks(E2, R2, o, fol.v1) \o FolChecks(E2, R2, o, fol.v2) ELSE <<>>)
